@@ -179,6 +179,7 @@ func doOp(d *common.DeadlineChan[uint64], o *qop) {
 type program struct {
 	cap   int
 	progs [][]qop
+	seq   bool // stamps are totally ordered with the calls' effects (controlled run: one goroutine moves at a time)
 }
 
 func (p program) String() string {
@@ -206,7 +207,7 @@ func (p program) coqProgs() string {
 
 // snapshot copies the program reading the fields the workers write with atomic loads
 func (p program) snapshot() program {
-	q := program{cap: p.cap}
+	q := program{cap: p.cap, seq: p.seq}
 	for i := range p.progs {
 		nt := make([]qop, len(p.progs[i]))
 		for j := range p.progs[i] {
@@ -391,6 +392,32 @@ func judge(p program, leftoverBeforeCleanup []uint64, leaked bool, goBefore, goA
 	if closeNil > 1 {
 		return verdict{false, "C17:queue-closed-twice", fmt.Sprintf("%d Close calls reported nil", closeNil)}
 	}
+	// "Send after Close -> EOF": no Send may report success for an item queued after Close completed.
+	// A Send issued after a Close had returned nil must fail; when the stamps are totally ordered
+	// with the effects (controlled runs) a Send may not even return nil after Close returned.
+	var closeRet int64 = -1
+	for _, t := range p.progs {
+		for _, o := range t {
+			if o.k == kClose && o.ret == 0 && o.r > 0 && (closeRet < 0 || o.r < closeRet) {
+				closeRet = o.r
+			}
+		}
+	}
+	if closeRet >= 0 {
+		for i, t := range p.progs {
+			for _, o := range t {
+				if o.k != kSend || o.ret != 0 {
+					continue
+				}
+				if o.c > closeRet {
+					return verdict{false, "C17:send-succeeded-after-close", fmt.Sprintf("T%d %s was issued after Close had returned nil and reported success", i, o)}
+				}
+				if p.seq && o.r > closeRet {
+					return verdict{false, "C17:send-succeeded-after-close", fmt.Sprintf("T%d %s returned nil after Close had completed: its item was queued on the closed queue (Send after Close must give io.EOF)", i, o)}
+				}
+			}
+		}
+	}
 	// at most once, only sent items, per sender/receiver order, errors are real errors
 	got := map[uint64]int{}
 	var firstEOFRet int64 = -1
@@ -521,6 +548,7 @@ func runControlled(class string, p0 program, script []int, r *hv.Rand) {
 	}
 	steps := append([]stepRec(nil), c.steps...)
 	// snapshot results before cleanup
+	p.seq = true
 	snap := p.snapshot()
 	c.release()
 	common.SetVerifYield(nil)
@@ -845,6 +873,33 @@ func exploreSmall(r *hv.Rand) {
 					}
 				}
 			}
+		}
+	}
+}
+
+// {Send, Close, Recv, Recv} on a queue with free capacity: the sender is taken to its last yield
+// point (dc.send.select: closed flag read, deadline channel fetched and polled), then Close runs to
+// completion, a Recv reports end of stream, and only then the sender and the second Recv continue.
+// In the code as is the sender holds the queue mutex from its first action on, so Close waits and
+// the scripted prefix degenerates to Send; Close; Recv; Recv.  Further schedules are sampled.
+func exploreSendClose(r *hv.Rand) {
+	for _, cp := range []int{1, 2, 4} {
+		mkp := func() program {
+			return mk(cp, []qop{{k: kSend, v: 42}}, []qop{{k: kClose}}, []qop{{k: kRecv}, {k: kRecv}})
+		}
+		for k := 0; k < hv.Scale(6, 40); k++ {
+			// T0 up to dc.send.select, T1 to the end, T2 first Recv, T0 to the end, T2
+			runControlled("explore-send-close", mkp(), append(append(append(rep(0, 4), rep(1, 5)...), rep(2, 8)...), 0, 0, 2, 2, 2, 2, 2, 2, 2, 2), r)
+			// same with the Close interleaved into the sender's window at a random depth
+			pre := 1 + r.Intn(4)
+			runControlled("explore-send-close", mkp(), append(append(rep(0, pre), rep(1, 5)...), 0, 0, 0, 0, 2, 2, 2, 2, 2, 2, 2, 2, 0, 0), r)
+		}
+		for k := 0; k < hv.Scale(10, 300); k++ {
+			runControlled("explore-send-close", mkp(), nil, r)
+		}
+		// without a reader: the item of a "successful" Send after Close is left on the closed queue
+		for k := 0; k < hv.Scale(6, 60); k++ {
+			runControlled("explore-send-close", mk(cp, []qop{{k: kSend, v: 42}}, []qop{{k: kClose}}), append(rep(0, 4), rep(1, 5)...), r)
 		}
 	}
 }
